@@ -124,11 +124,55 @@ func failKey(rf *RecFacts, method string, f wire.Fail) string {
 	switch f.Leaf {
 	case "prefix", "tag", "mapcount", "arraycount", "":
 	default:
-		if sh, ok := rf.fieldShapeFor(f.Leaf); ok {
-			typ, ctx = shapeCtx(sh, f.Leaf)
-		}
+		typ, ctx = rf.resolve(f)
+	}
+	if f.Rule == "sizeadv" {
+		// one template per record class emits this advance, wherever it is used
+		return fmt.Sprintf("%s %s leafclass=%s", f.Rule, method, rf.leafClass(typ))
 	}
 	return fmt.Sprintf("%s %s %s type=%s ctx=%s", f.Rule, method, kindName(rf.Spec.Kind), typ, ctx)
+}
+
+// resolve maps the operand of a failure to the schema type it holds and the
+// container it sits in.
+func (rf *RecFacts) resolve(f wire.Fail) (typ, ctx string) {
+	root := strings.TrimPrefix(f.Root, "*")
+	var fld *genfacts.RecField
+	for i := range rf.Spec.Fields {
+		fd := &rf.Spec.Fields[i]
+		names := []string{"bbp." + genfacts.GoFieldName(fd.Name, rf.Spec.RO, rf.GF.Opts), "bbp." + genfacts.GoTypeName(fd.Name, rf.GF.Opts)}
+		if root == names[0] || (rf.Spec.Kind == genfacts.ClsUnion && root == names[1]) {
+			fld = fd
+		}
+	}
+	if fld == nil && len(rf.Spec.Fields) == 1 {
+		fld = &rf.Spec.Fields[0]
+	}
+	if fld == nil {
+		return f.Leaf, "-"
+	}
+	if rf.Spec.Kind == genfacts.ClsUnion {
+		return "branch:" + fld.Branch, "field"
+	}
+	return shapeCtx(fld.Shape, f.Leaf)
+}
+
+func (rf *RecFacts) leafClass(typ string) string {
+	if strings.HasPrefix(typ, "branch:") {
+		if strings.HasPrefix(typ, "branch:message") {
+			return "message"
+		}
+		return "struct"
+	}
+	switch typ {
+	case genfacts.StructA, genfacts.StructE, genfacts.StructR:
+		return "struct"
+	case genfacts.MessageA, genfacts.MessageE:
+		return "message"
+	case genfacts.UnionA:
+		return "union"
+	}
+	return typ
 }
 
 // ---------------------------------------------------------------------------
